@@ -250,3 +250,48 @@ FACETS.append(Facet('torch/map-object-histories', f_map_object_history, strategy
 # ---- round trips on registers of 9..70 qubits with NumPy qubit labels (shared with C09: forward against the reference product, then backward)
 FACETS.append(Facet('np/large-registers', c09.f_big_circuit, strategy=lambda t: c09.st_big_circuit('np'), examples={'quick': 300, 'thorough': 15000}, shards={'quick': 2, 'thorough': 8}))
 FACETS.append(Facet('torch/large-registers', c09.f_big_circuit, strategy=lambda t: c09.st_big_circuit('torch', ['rot']), examples={'quick': 100, 'thorough': 5000}, shards={'quick': 1, 'thorough': 4}, backend='torch'))
+
+
+# ---- two circuits compiled separately, composed, used without recompiling: whatever the compiled maps then are (updated or left as they were),
+# backward must still undo forward on the receiver, and after compile() the receiver must be the product of all gates
+def f_compose_compiled(case):
+    be, N = case['be'], case['N']
+    Bk = B.backend(be)
+    cm = Bk.mods()['c']
+    mk = lambda: cm.identity_circuit(N) if be == 'torch' else (cm.CliffordCircuit(N) if case['cls'] == 'CliffordCircuit' else cm.Circuit(N))
+    c1, c2 = mk(), mk()
+    g1 = [C.gate_lib(gd, be) for gd in case['prog1']]
+    g2 = [C.gate_lib(gd, be) for gd in case['prog2']]
+    for g in g1:
+        c1.take(g)
+    for g in g2:
+        c2.take(g)
+    if case['compile1'] and g1:
+        c1.compile()
+    if case['compile2'] and g2:
+        c2.compile()
+    if not hasattr(c1, 'compose'):
+        return {'nt': False, 'labels': ['no-compose']}
+    c1.compose(c2)
+    for order in ('fb', 'bf'):
+        _round_trip(be, c1, case['input'], N, 'receiver of compose (operands compiled: %s, %s), not recompiled' % (case['compile1'], case['compile2']), order)
+    if g2:
+        _round_trip(be, c2, case['input'], N, 'operand of compose', 'fb')
+    if g1 or g2:
+        c1.compile()
+        obj, L, K = c09.make_input(be, N, case['input'])
+        c1.forward(obj)
+        total = C.program_ref(case['prog1'] + case['prog2'], N, g1 + g2)
+        C.expect_list(c09.read_obj(be, obj, case['input']['kind'])[:2], total.apply(L, K), 'receiver of compose after compile(): forward vs the %d gates of both circuits' % len(g1 + g2), 'compose-recompiled')
+        _round_trip(be, c1, case['input'], N, 'receiver of compose after compile()', 'bf')
+    return {'nt': bool(case['compile1'] and case['compile2'] and g1 and g2), 'labels': ['N=%d' % N, 'compiled=%d%d' % (case['compile1'], case['compile2'])]}
+
+
+def st_compose_compiled(be, hiN, kinds=None):
+    return st.integers(1, hiN).flatmap(lambda N: st.fixed_dictionaries(
+        {'be': st.just(be), 'N': st.just(N), 'prog1': gen.st_program(N, 5, kinds), 'prog2': gen.st_program(N, 5, kinds), 'compile1': st.sampled_from([True, True, False]),
+         'compile2': st.sampled_from([True, True, False]), 'cls': st.just('CliffordCircuit'), 'input': c09.st_input(N)}))
+
+
+FACETS.append(Facet('np/compose-compiled', f_compose_compiled, strategy=lambda t: st_compose_compiled('np', 4), examples={'quick': 600, 'thorough': 25000}, shards={'quick': 2, 'thorough': 8}))
+FACETS.append(Facet('torch/compose-compiled', f_compose_compiled, strategy=lambda t: st_compose_compiled('torch', 3, ['rot', 'rotc', 'fmap', 'bmap']), examples={'quick': 150, 'thorough': 6000}, shards={'quick': 1, 'thorough': 4}, backend='torch'))
